@@ -27,6 +27,7 @@ import resp
 import xsw
 import xswdoc
 import c01ids
+import c01s4
 from xswdoc import ASSERTION, RESPONSE, SIG, ENCASSERTION, ALGS
 from pipeline import SPCase
 from core import Exn, call, cstr, cbool, copt, clist
@@ -35,7 +36,7 @@ from saml2_tophat import saml, samlp, sigver, class_name, extension_elements_to_
 from saml2_tophat import BINDING_HTTP_POST, BINDING_SOAP
 
 CLAIM = {
-    "text": "Coq theorems (Props/C01.v, all closed under the global context) about Model/Xsw.v: symbolic documents of unbounded size (elements and ds:Signature nodes that record, per Reference, the URI and the digested content itself, the signing key and whether the value is intact), the node selection of `xmlsec1 --verify --id-attr:ID <name> [--node-id <id>]` as the stand-in tool implements it (registered IDs, first ds:Signature in document order at or below the start node, references resolved through registered IDs, enveloped removal, key from the command line) for all three duplicate-ID policies (fail / first / last), and the pre-check sigver._enveloped_signature_ok that the PROPOSED repair proposed_fix/C01-1.diff adds to SecurityContext._check_signature (the committed check expects /repo + that diff). Proved by induction over trees and paths: C01_relied_is_covered - whenever _check_signature's decision (pre-check and some candidate certificate verifies) is positive, the ID is non-empty, exactly one node of the whole document carries it and it is the element X of the asked name, X has exactly one Signature child, that child is the first signature in document order inside X (the one the tool processed), it has the single reference '#'+ID, an intact value under a key of the candidate certificates, and the digested content is exactly X minus that child; C01_verify_ok_covered - what a positive answer of the tool alone means (nothing ties the referenced elements to the start node); C01_mutation_rejected / C01_accepted_content_was_signed - for ANY document assembled from parts of a document d0, arbitrary new elements and IDs, signatures not valid under a protected key and re-dressed copies of d0's signatures (this closure contains every edit / move / copy / wrap / nest / relocate / duplicate-signature / duplicate-ID mutation of the quantifier), acceptance implies that the element relied upon minus its signature child is a content a protected key signed in d0 under that same ID (C01_mutations_compose: the closure is reflexive and transitive, so sequences of mutations are covered); C01_pipeline_relied_covered and C01_identity_from_processed_assertions - composed with C02's accept_iff over the SP pipeline model: an accepted response has every signature pysaml2 saw covering its element, want_response_signed => the response element is covered, want_assertions_signed => every assertion the application reads (plain or decrypted) is covered, want_assertions_or_response_signed => one of the two, and the assertions handed to the application are among those processed, UNDER THE HYPOTHESIS that a recorded positive verdict was produced by _check_signature on the text handed to the tool with that element's name and ID; C01_before_fix_refuted + 7 more wrapping shapes - without the pre-check (the code of /repo before the repair) the statement is false: a wrapped document assembled from a genuine one is accepted with an element that is not covered, under every duplicate-ID policy. THE IDENTIFIER ITSELF (Model/XswIds.v): C01_item_id_is_literal_ID - for every well-formed attribute table the id the object gets from SamlBase's table walk is the literal, unqualified ID attribute the tool and the pre-check read, whatever look-alikes (saml:ID, samlp:ID, xml:id, Id, id) stand before or after it (C01_item_id_ignores_look_alikes; a reader by local name is refuted); C01_one_identifier - _check_signature hands ONE variable to the pre-check and to the tool (check_signature_g with both hand-overs the identity is check_signature_x); C01_relied_is_covered_same_identifier - any treatment of the id on the way keeps the statement while both sides get the same string and it is still item.id; C01_tool_side_normalisation_refuted / C01_precheck_side_normalisation_refuted - as soon as one side trims, a forged element is accepted and not covered. ONLY TESTED (every run): that the argv the library really passes to the tool has --node-id byte-for-byte item.id, --id-attr ID, the octets of the text the object was parsed from, and that the pre-check run before it was given that same id string, node name, attribute name and octets and answered True (recording wrapper around the stand-in tool and sigver._enveloped_signature_ok, on every _check_signature run of the units and of the end-to-end runs; oracle keys handed-over:*), that item.id is the literal ID attribute of the element the object came from (item-id-not-literal-ID:*; unit item_id model vs real object on every distinct attribute table), on documents that include look-alike ID attributes carrying the genuine ID on forged elements and literal IDs that differ from the genuine one only by white space / case / compatibility form with a worthless own first signature in front of the nested genuine element; that model and code agree - unit tool_verify (model vs SecurityContext.verify_signature through the stand-in tool) and unit check_item (model vs correctly_signed_response / check_signature on the received and on the re-serialised decrypted text) on genuine and mutated real documents; the composition hypothesis and 'the identity is read from the covered element' - by the end-to-end oracle (accepted => name id, attributes, session expiry, InResponseTo of the signed original; all 8 requirement settings, 3 tool policies, 5 RSA-SHA algorithms, plain and encrypted, further configuration switches) and by re-checking every positive _check_signature verdict on the real XML with real digests and RSA; that the library's own signed output passes the pre-check.",
+    "text": "Coq theorems (Props/C01.v, all closed under the global context) about Model/Xsw.v: symbolic documents of unbounded size (elements and ds:Signature nodes that record, per Reference, the URI and the digested content itself, the signing key and whether the value is intact), the node selection of `xmlsec1 --verify --id-attr:ID <name> [--node-id <id>]` as the stand-in tool implements it (registered IDs, first ds:Signature in document order at or below the start node, references resolved through registered IDs, enveloped removal, key from the command line) for all three duplicate-ID policies (fail / first / last), and the pre-check sigver._enveloped_signature_ok that the PROPOSED repair proposed_fix/C01-1.diff adds to SecurityContext._check_signature (the committed check expects /repo + that diff). Proved by induction over trees and paths: C01_relied_is_covered - whenever _check_signature's decision (pre-check and some candidate certificate verifies) is positive, the ID is non-empty, exactly one node of the whole document carries it and it is the element X of the asked name, X has exactly one Signature child, that child is the first signature in document order inside X (the one the tool processed), it has the single reference '#'+ID, an intact value under a key of the candidate certificates, and the digested content is exactly X minus that child; C01_verify_ok_covered - what a positive answer of the tool alone means (nothing ties the referenced elements to the start node); C01_mutation_rejected / C01_accepted_content_was_signed - for ANY document assembled from parts of a document d0, arbitrary new elements and IDs, signatures not valid under a protected key and re-dressed copies of d0's signatures (this closure contains every edit / move / copy / wrap / nest / relocate / duplicate-signature / duplicate-ID mutation of the quantifier), acceptance implies that the element relied upon minus its signature child is a content a protected key signed in d0 under that same ID (C01_mutations_compose: the closure is reflexive and transitive, so sequences of mutations are covered); C01_pipeline_relied_covered and C01_identity_from_processed_assertions - composed with C02's accept_iff over the SP pipeline model: an accepted response has every signature pysaml2 saw covering its element, want_response_signed => the response element is covered, want_assertions_signed => every assertion the application reads (plain or decrypted) is covered, want_assertions_or_response_signed => one of the two, and the assertions handed to the application are among those processed, UNDER THE HYPOTHESIS that a recorded positive verdict was produced by _check_signature on the text handed to the tool with that element's name and ID; C01_before_fix_refuted + 7 more wrapping shapes - without the pre-check (the code of /repo before the repair) the statement is false: a wrapped document assembled from a genuine one is accepted with an element that is not covered, under every duplicate-ID policy. THE IDENTIFIER ITSELF (Model/XswIds.v): C01_item_id_is_literal_ID - for every well-formed attribute table the id the object gets from SamlBase's table walk is the literal, unqualified ID attribute the tool and the pre-check read, whatever look-alikes (saml:ID, samlp:ID, xml:id, Id, id) stand before or after it (C01_item_id_ignores_look_alikes; a reader by local name is refuted); C01_one_identifier - _check_signature hands ONE variable to the pre-check and to the tool (check_signature_g with both hand-overs the identity is check_signature_x); C01_relied_is_covered_same_identifier - any treatment of the id on the way keeps the statement while both sides get the same string and it is still item.id; C01_tool_side_normalisation_refuted / C01_precheck_side_normalisation_refuted - as soon as one side trims, a forged element is accepted and not covered. WHETHER IT IS HANDED OVER AT ALL (Model/XswOpts.v; a tool run without --node-id verifies the first signature of the document, tool_first_signature): C01_handover_of_the_code - with the code's hand-over (`if node_id:`, one argv element) check_signature_h is check_signature_x; C01_relied_is_covered_for_every_id - for any hand-over that passes every non-empty id unchanged, acceptance means covered for EVERY id string, no condition on its characters (-x, --node-id, --id-attr:ID, blanks, quotes, $, back-quotes, % are ids like any other); C01_dropping_option_like_ids_refuted - a hand-over that leaves out ids with a leading '-' accepts a forged assertion -x (own worthless signature, genuine assertion parked earlier) that is not covered. SEVERAL PLAIN ASSERTIONS (Model/MultiAssertion.v: the loop of parse_assertion over response.assertion, get_identity, name_id): C01_identity_from_individually_checked_assertions - by induction over the list, every assertion handed to the application, every attribute of the merged identity and the name id come from an assertion that was individually checked (with want_assertions_signed: it has a signature and check_signature said yes; a present signature is verified under every setting - C01_checked_means_verified); C01_first_assertion_only_refuted - a loop over the first assertion only hands out the forged attributes. ONLY TESTED (every run): that every verification the library starts carries exactly one --node-id followed by ONE argv element that is item.id and the literal ID of an element of the document handed over (argv read the way the tool reads it; documents id-option-like:* whose forged ID looks like an option of the tool or needs quoting, or is the genuine id dressed that way, with the genuine element parked earlier; oracle keys handed-over:tool-run-without-node-id / node-id-names-no-element); that the loop model agrees with the code (unit parse_plain) and that on the walk multi-assertion:* (1..3 plain assertions x which one is genuine x the others unsigned / wrong key / corrupted x empty / undecipherable / genuine EncryptedAssertion filler in every position x response signed or not x 8 settings) name id, .ava, get_identity(), session_info() and .assertions of an accepted response come only from individually verified assertions when assertion signatures are demanded (identity-from-unchecked-assertion:*); that the argv the library really passes to the tool has --node-id byte-for-byte item.id, --id-attr ID, the octets of the text the object was parsed from, and that the pre-check run before it was given that same id string, node name, attribute name and octets and answered True (recording wrapper around the stand-in tool and sigver._enveloped_signature_ok, on every _check_signature run of the units and of the end-to-end runs; oracle keys handed-over:*), that item.id is the literal ID attribute of the element the object came from (item-id-not-literal-ID:*; unit item_id model vs real object on every distinct attribute table), on documents that include look-alike ID attributes carrying the genuine ID on forged elements and literal IDs that differ from the genuine one only by white space / case / compatibility form with a worthless own first signature in front of the nested genuine element; that model and code agree - unit tool_verify (model vs SecurityContext.verify_signature through the stand-in tool) and unit check_item (model vs correctly_signed_response / check_signature on the received and on the re-serialised decrypted text) on genuine and mutated real documents; the composition hypothesis and 'the identity is read from the covered element' - by the end-to-end oracle (accepted => name id, attributes, session expiry, InResponseTo of the signed original; all 8 requirement settings, 3 tool policies, 5 RSA-SHA algorithms, plain and encrypted, further configuration switches) and by re-checking every positive _check_signature verdict on the real XML with real digests and RSA; that the library's own signed output passes the pre-check.",
     "note": "Partial w.r.t. the real xmlsec1 (not installed): the tool semantics are those of the stand-in (DESIGN.md 4.3); xml:id / DTD-declared IDs are not modelled (the pre-check counts ID carriers over all elements whatever their name). Trusted: Coq kernel + vm_compute; symbolic cryptography (a digest is its preimage, a valid signature value implies the key owner signed that SignedInfo); the symbolic twin of real documents (harness/xswdoc.py). On /repo WITHOUT proposed_fix/C01-1.diff the check reports the signature-wrapping defect (F6): e.g. 'wrap-assertion:Extensions:orig-stripped:new-id' is accepted with the forged identity. Advice assertions are outside Model/Response.v; metadata verification (mdstore) does not go through _check_signature.",
     "technique": "machine-checked proof (Coq, induction over document trees and paths; Dolev-Yao closure for the mutation quantifier) + correspondence on real signed and mutated documents + implementation-level oracles",
 }
@@ -48,6 +49,7 @@ ASSUMPTIONS = [
     "one identifier: the string given to the tool as --node-id, the string given to the pre-check and item.id are the same string, and the tool is given the octets the object was parsed from (tested on every _check_signature run by the recorded argv / pre-check arguments, oracle keys handed-over:*; not proved - the argv reaches the real xmlsec1 unchanged is trusted)",
     "composition: the object pysaml2 relies on (item) was parsed from an element of the text handed to the tool and item.id is that element's ID attribute; by the proved uniqueness of that ID the element is the covered one (tested by unit check_item and the end-to-end oracle, not proved)",
 ]
+ASSUMPTIONS.append("several assertions: the verdicts the loop model takes as inputs (signature present, check_signature's answer, conditions/subject) are those of the real _assertion on that assertion; tested by unit parse_plain and the oracle identity-from-unchecked-assertion:* (not proved)")
 RULE = ("documents = {5 RSA-SHA algorithms} x {response, assertion, both signed} x {plain, encrypted} x (genuine + mutation catalogue + random placements); "
         "pipeline runs = documents x signature-requirement settings x tool duplicate-ID policies; non-trivial = distinct (document, setting, policy) with a signature involved")
 
@@ -58,8 +60,9 @@ POLN = {"fail": 0, "first": 1, "last": 2}
 
 
 class Doc(object):
-    def __init__(self, name, level, alg, xml, encrypted, kind, base):
+    def __init__(self, name, level, alg, xml, encrypted, kind, base, light=False):
         self.name, self.level, self.alg, self.xml, self.encrypted, self.kind, self.base = name, level, alg, xml, encrypted, kind, base
+        self.light = light          # light: one SP, one tool policy, the tool unit on every 4th only, the required settings
 
 
 def set_policy(p):
@@ -125,6 +128,19 @@ def build_documents(ctx):
                     muts += xswdoc.signed_near_misses(lv, alg) if level != "both" else []
             for name, m in muts:
                 docs.append(Doc(name, level, alg[0], m, False, "mutated", None))
+            # ---- identifiers that look like options of the tool or need quoting (round 4, class a)
+            ido = c01s4.option_like_ids(g, level, ctx.rng, per_id_slots=(1 if ctx.quick else None))
+            if ctx.quick and (not full or level == "both"):
+                ido = ctx.rng.sample(ido, min(len(ido), 3 if not full else 8))
+            for name, m in ido:
+                docs.append(Doc(name, level, alg[0], m, False, "mutated", None, light=True))
+            if full and level == "both":
+                # genuine messages whose OWN identifiers look like options / need quoting must still pass
+                for rid, aid in (("--r 1", "-a'1"), ("--node-id", "--id-attr:ID")):
+                    docs.append(Doc("genuine", level, alg[0], xswdoc.genuine(rs, as_, alg=alg, rid=rid, aid=aid), False, "genuine", None, light=True))
+                # ---- several plain assertions next to an EncryptedAssertion (class b): the few that also go through the units
+                for md in c01s4.multi_unit_docs(alg):
+                    docs.append(Doc(md.name, "response" if md.rsig else "assertion", alg[0], md.xml, False, "mutated-multi", None, light=True))
             # ---- encrypted carriers
             ge = xswdoc.genuine(rs, as_, encrypted=True, alg=alg)
             docs.append(Doc("genuine", level, alg[0], ge, True, "genuine", None))
@@ -307,7 +323,7 @@ def _run(ctx):
             # ---- unit tool_verify
             qs, got = [], []
             ids = ids_by_name(root)
-            for tag, nm in ((RESPONSE, NAME["response"]), (ASSERTION, NAME["assertion"])):
+            for tag, nm in ((RESPONSE, NAME["response"]), (ASSERTION, NAME["assertion"])) if (not d.light or di % 4 == 0) else ():
                 for nid in ids[tag][:4] + ["no-such-id", None]:
                     for cert in ("idp", "other"):
                         for pol in pols:
@@ -317,8 +333,9 @@ def _run(ctx):
                             qs.append("(%d, %d, %s, %d)" % (POLN[pol], xswdoc.node_name_n(nm), copt(nid, cstr), xswdoc.KEYID[cert]))
                             ctx.count("tool:%s" % ("OK" if got[-1] else "FAIL"))
             set_policy("fail")
-            tool_cases.append(dict(id=len(tool_cases), coq=cd.wrap("(%s, [%s])" % (tree, "; ".join(qs))), impl=got,
-                                   show=dict(doc=d.name, level=d.level, alg=d.alg, stage=stage, queries=len(qs))))
+            if qs:
+                tool_cases.append(dict(id=len(tool_cases), coq=cd.wrap("(%s, [%s])" % (tree, "; ".join(qs))), impl=got,
+                                       show=dict(doc=d.name, level=d.level, alg=d.alg, stage=stage, queries=len(qs))))
             # ---- unit check_item + statement oracle
             qs, got = [], []
             for item, nm, px, what in items_of(text):
@@ -336,7 +353,7 @@ def _run(ctx):
                                     % (what, d.name, stage, item.id, lit, sorted(c01ids.element_at(root, px).attrib)),
                                     dict(unit="ident", doc=d.name, level=d.level, alg=d.alg, encrypted=d.encrypted, stage=stage, what=what,
                                          policy="fail", xml=d.xml))
-                for spx, certs, cnames in ((sp1, [1], ["idp"]), (sp2, [3, 1], ["other", "idp"])):
+                for spx, certs, cnames in ((sp1, [1], ["idp"]), (sp2, [3, 1], ["other", "idp"]))[:1 if d.light else 2]:
                     for pol in pols:
                         set_policy(pol)
                         ctx.rec.reset()
@@ -383,7 +400,8 @@ def _run(ctx):
                              show=dict(tables=len(chunk), first=[list(a) for a in tabs[0]])))
     ctx.count("item_id:attribute-tables", len(keys))
     ctx.correspond("item_id", "Model.XswIds", "show_item_ids", "(list (list (option str * str * str)))", id_cases)
-    oracle_pipeline(ctx, docs)
+    oracle_pipeline(ctx, [d for d in docs if d.kind != "mutated-multi"])
+    oracle_multi_assertion(ctx)
     unit_library_output(ctx)
 
 
@@ -407,7 +425,9 @@ def oracle_pipeline(ctx, docs):
         full = (d.alg == ALGS[main][0]) or not ctx.quick
         required = {"response": (True, False, False), "assertion": (False, True, False), "both": (True, True, False)}[d.level]
         settings = SETTINGS if full else [required, (False, False, True), ctx.rng.choice(SETTINGS)]
-        if full and ctx.quick and d.name.startswith("id-"):
+        if d.light and ctx.quick and d.kind == "mutated":
+            settings = sorted(set([required, (False, False, True)])) if d.level != "both" else [(True, False, False), (False, True, False), (False, False, True)]
+        elif full and ctx.quick and d.name.startswith("id-"):
             # the identifier families: each single requirement and the document's own one (quick tier)
             settings = sorted(set([(True, False, False), (False, True, False), (False, False, True), required]))
         root = xswdoc.parse_text(d.xml)
@@ -472,6 +492,60 @@ def oracle_pipeline(ctx, docs):
                                     dict(unit="pipeline-variant", doc=d.name, level=d.level, alg=d.alg, encrypted=d.encrypted, variant=label,
                                          setting=required, policy=pol, xml=d.xml))
     set_policy("fail")
+
+
+def oracle_multi_assertion(ctx):
+    """class (b): whatever an accepted response hands to the application comes from assertions that were individually
+    checked - walk over the number of plain assertions, which one is genuine, the other ones' signatures, the
+    EncryptedAssertion filler and its place, response signed or not, and all 8 requirement settings"""
+    main = ALGS[ctx.seed % len(ALGS)]
+    mdocs = c01s4.multi_docs(ctx.rng, main, ctx.quick)
+    if not ctx.quick:
+        for alg in ALGS:
+            if alg is not main:
+                mdocs += c01s4.multi_docs(ctx.rng, alg, True)
+    set_policy("fail")
+    loop_q, loop_got, loop_names = [], [], []
+    for md in mdocs:
+        for st in SETTINGS:
+            ctx.rec.reset()
+            got = c01s4.observe_multi(SPCase(wrs=st[0], was=st[1], waors=st[2]).sp(), md.xml)
+            acc = isinstance(got, dict)
+            if md.filler == "empty" and not st[0] and not st[2]:
+                # unit parse_plain: the loop over the plain assertions alone decides (no decryption, no response-level demand)
+                loop_q.append("(%s, %s)" % (cbool(st[1]), clist(range(md.n), lambda k: "(%s, %s)" % (
+                    cbool(k == md.gpos or md.fkinds[k] is not None), cbool(k == md.gpos)))))
+                loop_got.append(acc)
+                loop_names.append("%s under want_assertions_signed=%s" % (md.name, st[1]))
+            ctx.count("multi-assertion:%d-plain:%s" % (md.n, "accepted" if acc else "rejected"))
+            if any(st):
+                ctx.nontriv(("multi", md.name, st))
+            inp = dict(unit="multi", doc=md.name, alg=md.alg, setting=st, policy="fail", xml=md.xml,
+                       spec=dict(n=md.n, gpos=md.gpos, fkinds=md.fkinds, filler=md.filler, fpos=md.fpos, rsig=md.rsig))
+            for tag, msg in c01ids.audit(ctx.rec):
+                ctx.oracle_fail("handed-over:%s:pipeline:multi:%s" % (tag, md.name), "'%s' under %s: %s" % (md.name, st, msg), inp)
+            if not acc or not any(st):
+                continue
+            ids, names, vals = md.trusted(st)
+            bad = []
+            for cell in ("name_id", "info_name_id"):
+                if got[cell] not in names:
+                    bad.append("%s=%r" % (cell, got[cell]))
+            for cell in ("ava", "identity", "info_ava"):
+                if not got[cell] <= vals:
+                    bad.append("%s has %r" % (cell, sorted(got[cell] - vals)))
+            if not set(got["assertions"]) <= ids or got["assertion"] not in ids:
+                bad.append("assertions %r / %r" % (got["assertions"], got["assertion"]))
+            if bad:
+                ctx.oracle_fail("identity-from-unchecked-assertion:%s:setting-%s" % (md.name, "".join("1" if x else "0" for x in st)),
+                                "'%s' accepted under want_response_signed=%s want_assertions_signed=%s want_assertions_or_response_signed=%s; "
+                                "what may be relied upon: assertions %r (name ids %r); but %s"
+                                % (md.name, st[0], st[1], st[2], sorted(ids), sorted(names), "; ".join(bad)), inp)
+            elif len(ctx.samples) < 9:
+                ctx.sample(dict(doc=md.name, setting=st, outcome={k: (sorted(v) if isinstance(v, set) else v) for k, v in got.items()}))
+    cases = [dict(id=i // 2, coq="[%s]" % "; ".join(loop_q[i:i + 2]), impl=loop_got[i:i + 2], show=dict(docs=loop_names[i:i + 2]))
+             for i in range(0, len(loop_q), 2)]
+    ctx.correspond("parse_plain", "Model.MultiAssertion", "show_parse_plain", "(list (bool * list (bool * bool)))", cases)
 
 
 _variants = {}
@@ -607,6 +681,18 @@ def replay(ctx, payload):
                         for tag, msg in c01ids.audit(rec):
                             print("VIOLATED %s: %s" % (tag, msg))
                             bad += 1
+            elif inp.get("unit") == "multi":
+                st = inp.get("setting") or (False, True, False)
+                sp_ = inp.get("spec") or {}
+                got = c01s4.observe_multi(SPCase(wrs=st[0], was=st[1], waors=st[2]).sp(), xml)
+                print("implementation outcome:", got)
+                if isinstance(got, dict) and sp_:
+                    md = c01s4.Multi(inp.get("doc"), xml, sp_["n"], sp_["gpos"], sp_["fkinds"], sp_["filler"], sp_["fpos"], sp_["rsig"], inp.get("alg"))
+                    ids, names, vals = md.trusted(st)
+                    print("may be relied upon: assertions %r, name ids %r, values %r" % (sorted(ids), sorted(names), sorted(vals)))
+                    if got["name_id"] not in names or got["info_name_id"] not in names or not (got["ava"] | got["identity"] | got["info_ava"]) <= vals \
+                            or not set(got["assertions"]) <= ids or got["assertion"] not in ids:
+                        bad += 1
             elif inp.get("unit") == "check_item":
                 sp1 = SPCase(wrs=True, was=True).sp()
                 text = xml if inp.get("stage") != "decrypted" else decrypted_text(sp1, xml)
